@@ -96,6 +96,15 @@ def cases(ctx):
         k += 1
         if ctx.mine(k):
             yield {"kind": "header", "flavour": flav}
+    # every instruction of every flavour under other version bytes than the current ones (older, newer, extreme): the header's
+    # version does not change how a command is encoded
+    for flav in ("vanilla", "nv", "reids"):
+        for m in sorted(isa.TABLE[flav]):
+            for ver in ([0, 0], [0, 9], [0, 11], [1, 0], [255, 255]):
+                k += 1
+                if ctx.mine(k) and (not ctx.quick or ver in ([0, 0], [0, 9]) or k % 3 == 0):
+                    yield {"kind": "single", "flavour": flav, "version": ver, "app_id": rng.randrange(65536),
+                           "instrs": [[m, codec.rand_values(rng, isa.TABLE[flav][m][1])]]}
     nseq = ctx.n(300, 400000)
     for _ in range(nseq):
         flav = rng.choice(["vanilla", "nv", "reids"])
